@@ -804,7 +804,7 @@ class World(object):
         if how == 'exc':
             self.fired('connect_exc')
             raise InjectedError('injected failure in connect')
-        if st.tls and st.conn.tls_fail == 'connect':
+        if st.tls and st.conn.tls_fail:
             self.fired('tls_handshake_fail')
             raise _real_ssl.SSLError(1, '[SSL] handshake failure (injected)')
         st.connected = True
@@ -823,7 +823,7 @@ class World(object):
     def wrap_socket(self, sock, server_hostname=None):
         st = sock._st
         self.op('wrap', st.index, str(server_hostname))
-        if st.connected and st.conn.tls_fail == 'wrap':
+        if st.connected and st.conn.tls_fail:
             self.fired('tls_handshake_fail')
             raise _real_ssl.SSLError(1, '[SSL] handshake failure (injected)')
         st.tls = True
